@@ -57,6 +57,8 @@ int ys_compiler_arena_info(ys_compiler* c, char* out, size_t outlen);
 void ys_rules_free(ys_rules* r);
 int ys_rules_define(ys_rules* r, int type, const char* id, int64_t i, double f, const char* s);
 /* save through an in-memory stream; *data malloc'd */
+/* returned by ys_scan instead of the library's code when an fd scan closed the caller's descriptor */
+#define YS_ERR_FD_CLOSED_BY_LIBRARY 9001
 int ys_rules_save_mem(ys_rules* r, uint8_t** data, size_t* len);
 int ys_rules_save_file(ys_rules* r, const char* path);
 /* load from memory; mode 0: exact in-memory stream, 1: pipe-backed FILE* fed in
